@@ -274,7 +274,7 @@ var registry = func() []regEntry {
 		{nm("alpha", "Float32"), rtOf[alpha.Float32]()}, {nm("alpha", "Float64"), rtOf[alpha.Float64]()}, {nm("alpha", "String"), rtOf[alpha.String]()}, {nm("alpha", "Rune"), rtOf[alpha.Rune]()},
 		{nm("alpha", "Byte"), rtOf[alpha.Byte]()}, {nm("alpha", "Strings"), rtOf[alpha.Strings]()}, {nm("alpha", "IntMap"), rtOf[alpha.IntMap]()}, {nm("alpha", "Arr"), rtOf[alpha.Arr]()},
 		{nm("alpha", "Matrix"), rtOf[alpha.Matrix]()}, {nm("alpha", "Point"), rtOf[alpha.Point]()}, {nm("alpha", "Same"), rtOf[alpha.Same]()}, {nm("alpha", "Named"), rtOf[alpha.Named]()},
-		{nm("alpha", "Embedded"), rtOf[alpha.Embedded]()},
+		{nm("alpha", "Embedded"), rtOf[alpha.Embedded]()}, {nm("alpha", "Wide"), rtOf[alpha.Wide]()},
 		{nm("beta", "Kind"), rtOf[betav1.Kind]()}, {nm("beta", "Same"), rtOf[betav1.Same]()}, {nm("beta", "Spec"), rtOf[betav1.Spec]()},
 		{nm("gamma", "Same"), rtOf[gammav1.Same]()}, {nm("gamma", "Level"), rtOf[gammav1.Level]()}, {nm("gamma", "Status"), rtOf[gammav1.Status]()},
 		// instantiations
@@ -362,7 +362,7 @@ func (n *tn) toReflect() (rt reflect.Type, ok bool) {
 var scalarBasics = []string{"bool", "int", "int8", "int16", "int32", "int64", "uint", "uint8", "uint16", "uint32", "uint64", "uintptr", "float32", "float64", "string", "byte", "rune"}
 var namedScalars = []*tn{nm("alpha", "Bool"), nm("alpha", "Int"), nm("alpha", "Int8"), nm("alpha", "Int64"), nm("alpha", "Uint16"), nm("alpha", "Uintptr"), nm("alpha", "Float32"),
 	nm("alpha", "Float64"), nm("alpha", "String"), nm("alpha", "Rune"), nm("alpha", "Byte"), nm("beta", "Kind"), nm("gamma", "Level")}
-var namedComposite = []*tn{nm("alpha", "Strings"), nm("alpha", "IntMap"), nm("alpha", "Arr"), nm("alpha", "Point"), nm("alpha", "Same"), nm("alpha", "Named"), nm("alpha", "Embedded"),
+var namedComposite = []*tn{nm("alpha", "Wide"), nm("alpha", "Strings"), nm("alpha", "IntMap"), nm("alpha", "Arr"), nm("alpha", "Point"), nm("alpha", "Same"), nm("alpha", "Named"), nm("alpha", "Embedded"),
 	nm("beta", "Same"), nm("beta", "Spec"), nm("gamma", "Same"), nm("gamma", "Status"), nm("alpha", "Matrix")}
 
 var generics = []struct {
